@@ -12,10 +12,11 @@ CONSTANTS
   TxNoLock = FALSE
   WalGuard = TRUE
   WalOwnerTest = FALSE
+  FlushAll = FALSE
   Exclude = {"DmsW", "RecovW", "RecovU"}
   Gated = TRUE
   EmitEdges = TRUE
 VIEW view
-INVARIANTS TypeOK LockConsistent WriteSetHeld Exclusion NoBegin SnapshotExcluded EmitInv
+INVARIANTS TypeOK NothingLost LockConsistent WriteSetHeld Exclusion NoBegin SnapshotExcluded EmitInv
 PROPERTIES RefusedWhileWriting EnterOnlyWhenFree WritesInsideSection CkptNeverGrantedUnderForeignWrite WalWriteNeedsWriteLock SingleLockPosix
 CHECK_DEADLOCK FALSE
